@@ -54,6 +54,11 @@ def key(c):
     return "/".join(c[d] for d in DIMS)
 
 
+def fkey(c):
+    """CfgStr of Trace_C05.tla"""
+    return "/".join(c[d] for d in ("api", "src", "ss", "out"))
+
+
 def pairs_of(c):
     return {(a, c[a], b, c[b]) for a in DIMS for b in DIMS if a != b}
 
@@ -121,7 +126,7 @@ def canon_walked(tree):
         elif k == "comment":
             out.append({"k": "comment", "v": n["v"]})
         elif k == "pi":
-            out.append({"k": "pi", "name": n["l"], "v": n["v"]})
+            out.append({"k": "pi", "name": n["l"], "v": n["v"].lstrip(" \t\r\n")})     # <?t  x?>: white space after the target is the separator
         else:
             out.append({"k": "other", "v": n.get("v", "")})
     return _merge_text(out)
@@ -275,8 +280,21 @@ def plan(inp, forms, with_short=True):
 
     def ok(c):
         return not (feat["utf16"] and c["out"] == "cData") and not (feat["srcbase"] and c["src"] == "stream" and c["api"] in ("c", "cli"))
-    runs = [dict(REF, via="stream", xml="in_sorted.xml", ctrl="attrsSorted")]
     sel = [c for c in forms if ok(c)]
+    runs = []                                               # control experiments first (Trace_C05 only records them)
+    ctl = inp.get("ctl", [])
+    if "in_sorted.xml" in inp["files"]:
+        runs.append(dict(REF, via="stream", xml="in_sorted.xml", ctrl="attrsSorted"))
+    if "dtd" in ctl:
+        runs.append(dict(REF, via="stream", xml="in_nodtd.xml", ctrl="noDtdRef"))
+    for c in sel:
+        if c["src"] in ("parsedXerces", "wrappedXercesDOM"):
+            if "nsaxis" in ctl:
+                runs.append(dict(c, xml="in_xmlnsxml.xml", ctrl="xmlnsXml:" + fkey(c)))
+            if "dtd" in ctl:
+                runs.append(dict(c, xml="in_nodtd.xml", ctrl="noDtd:" + fkey(c)))
+        if c["out"] == "sourceTree" and "cdataelems" in ctl:
+            runs.append(dict(c, xml="in_nocdata.xml", xsl="main_nocdata.xsl", ctrl="noCdataElems:" + fkey(c)))
     runs += sel
     if with_short:
         cbs = [c for c in sel if c["out"] == "callback"]
@@ -346,9 +364,9 @@ def to_events(inp, runs):
 
 
 def classify(msg):
-    if "KD=attrOrderXercesDOM" in msg:
-        return "attrOrderXercesDOM"
-    return None
+    import re
+    m = re.search(r"class=tree KD=(\w+)", msg)
+    return m.group(1) if m else None
 
 
 def run(res, tier, seed):
@@ -365,7 +383,7 @@ def run(res, tier, seed):
     res.notes["quick_subset"] = [key(c) for c in qsub]
     forms = qsub if quick else sup
     # ---- GEN
-    inputs = c05_corpus.make_corpus(rng, 14 if quick else 200)
+    inputs = c05_corpus.make_corpus(rng, 14 if quick else 600)
     for i, inp in enumerate(inputs):
         inp["idx"] = i
     # ---- RUN
